@@ -490,6 +490,21 @@ func (x *Exec) byContract(st *State, fr *Frame, n ast.Node, pc *ProcContract, os
 		st = st.clone()
 		st.assume(tNot(pcnd))
 	}
+	// may_panic_when: the callee may panic then, and it may return as well
+	var mconds []Term
+	for _, c := range pc.MayPanic {
+		t, err := x.cevalSafe(env, c, "Bool")
+		if err != nil {
+			x.contractError(st, "may_panic_when:"+short, err, n)
+			continue
+		}
+		mconds = append(mconds, t)
+	}
+	if len(mconds) > 0 {
+		ps := st.clone()
+		ps.assume(tOr(mconds...))
+		x.panicExit(ps, fr, n, "via:"+short, "callee "+short+" may panic")
+	}
 	post := st
 	if !pc.Pure {
 		post = st.clone()
